@@ -1,5 +1,5 @@
 //@ unit mixer
-//@ props C19
+//@ props C19 C16
 //@ assume sample_count_for_frame_fraction (one f64 expression) is external here with contract r <= samples_per_frame, monotone; proved by Kani harness K-core::audio::sample_count
 //@ assume gen_sample (float mixing of beeper and AY) is external: returns some sample, touches only the devices and last_sample
 use vstd::prelude::*;
@@ -95,11 +95,13 @@ impl ZXMixer {
                     self.ring_buffer@.subrange(0, old(self).ring_buffer@.len() as int) == old(self).ring_buffer@,
 //@ end
 
-//@ fn rustzx-core/src/zx/sound/mixer.rs impl ZXMixer::pop props C19
+//@ fn rustzx-core/src/zx/sound/mixer.rs impl ZXMixer::pop props C19 C16
 //@ ret r
 //@ sig
         requires old(self).inv(),
         ensures final(self).inv(), final(self).last_pos == old(self).last_pos,
+            // C16: draining touches nothing but the queue
+            *final(self) == (ZXMixer { ring_buffer: final(self).ring_buffer, ..*old(self) }),
             old(self).ring_buffer@.len() == 0 ==> r is None && final(self).ring_buffer@ == old(self).ring_buffer@,
             old(self).ring_buffer@.len() > 0 ==> r is Some && final(self).ring_buffer@ == old(self).ring_buffer@.subrange(1, old(self).ring_buffer@.len() as int),
 //@ end
